@@ -106,7 +106,7 @@ def check(chk, facts, rule):
         bm2 = dict(bm)
         # ite_arc takes Arcs: same positions as ite
         total += check_events(chk, rule, facts, g, vn, events, bm2, fields)
-    chk.floor(rule, "residual constructor sites", total, 22)
+    chk.floor(rule, "residual constructor sites", total, 20)
     chk.ob(rule, "arms", arms_with >= 9, "%d arms of partial_interpret_internal rebuild residuals" % arms_with, where=f.where(), fn=f.name)
     # a residual leaving the UnaryApp / Like / Is / HasAttr arms must have been rebuilt (never the bare child residual)
     L = shape.Labels(f, None, shape.variant_field_seed("ast::expr::ExprKind"),
@@ -144,6 +144,6 @@ def check_substitute(chk, facts, rule="C13.SUBST"):
         vn = r["variants"][vi]["name"]
         fields = [x[0] for x in r["variants"][vi]["fields"] if "ast::expr::Expr<" in x[1]]
         total += check_events(chk, rule, facts, f, vn, arm["events"], bm, fields)
-    chk.floor(rule, "rebuilding constructor sites", total, 12)
+    chk.floor(rule, "rebuilding constructor sites", total, 11)
     sink = lambda c, t: c == name
     traverse.check(chk, rule + ".traverse", facts, f, EXPRKIND, "ast::expr::ExprKind", ("ast::expr::Expr<", "Arc<cedar_policy_core::ast::expr::Expr", "ast::expr::Expr>"), sink, floor=12, name="substitute")
